@@ -317,6 +317,7 @@ def gen_race_project(rng, *, conflict: bool = False) -> tuple[Project, dict]:
     files = {p: f"source {p} v0\n" for p in RACE_SOURCES}
     decls: dict[str, list] = {p: [] for p in plans}
     info = {"plans": plans, "conflict": None}
+    extra_scripts: dict = {}
     # who declares which source
     owners = {}
     for src in ["src/a.txt", "src/b.txt", "src/c.txt"]:
@@ -360,7 +361,8 @@ def gen_race_project(rng, *, conflict: bool = False) -> tuple[Project, dict]:
                       static=False)
         )
     if conflict:
-        kind = rng.choice(["same-output", "same-static", "static-vs-output", "same-step", "tree-vs-file"])
+        kind = rng.choice(["same-output", "same-static", "static-vs-output", "same-step", "tree-vs-file",
+                           "glob-vs-amended-volatile", "glob-vs-amended-output"])
         a, b = rng.sample(plans, 2)
         # a working directory other than the root makes the label differ from the command (`cmd  # wd=w/`):
         # the error text must name the step the same way whichever declaration came first
@@ -377,6 +379,15 @@ def gen_race_project(rng, *, conflict: bool = False) -> tuple[Project, dict]:
             files["out/mix.txt"] = "user file\n"
             decls[a].append(A.static("out/mix.txt"))
             decls[b].append(A.step("mix", inp=["src/a.txt"], out=["out/mix.txt"], workdir=wdb))
+        elif kind in ("glob-vs-amended-volatile", "glob-vs-amended-output"):
+            # one plan registers a pattern, a step of the other plan announces, while it runs, a volatile (or
+            # regular) output that the pattern matches: rejected whichever request arrives first
+            role = "vol" if kind.endswith("volatile") else "out"
+            decls[a].append(A.glob("tmp/*.log"))
+            decls[b].append(A.step("logger", inp=["src/b.txt"], out=["out/logger.txt"], workdir=wdb))
+            extra_scripts["logger" + ("" if wdb == "." else f"  # wd={wdb}")] = [
+                A.read_declared(), A.nop(), A.amend(**{role: ["tmp/x.log"]}), A.write("tmp/x.log", "log\n", True),
+                A.write_declared()]
         elif kind == "same-step":
             decls[a].append(A.step("twice", inp=["src/a.txt"], out=["out/twice.txt"]))
             decls[b].append(A.step("twice", inp=["src/a.txt"], out=["out/twice.txt"]))
@@ -387,7 +398,7 @@ def gen_race_project(rng, *, conflict: bool = False) -> tuple[Project, dict]:
         info["conflict"] = kind
     for plan in plans:
         rng.shuffle(decls[plan])
-    scripts = {}
+    scripts = dict(extra_scripts)
     main = []
     for plan in plans:
         fname = plan[2:]
